@@ -660,4 +660,9 @@ pub(crate) mod verif_local {
         format_lines(&mut text, name, skipped_range, config, &report);
         (text, report)
     }
+
+    /// `generated::is_generated_file`.
+    pub(crate) fn generated_file(text: &str, config: &Config) -> bool {
+        is_generated_file(text, config)
+    }
 }
